@@ -42,14 +42,28 @@ fn same_mod_zero<T: Scalar>(a: Option<T>, b: Option<T>) -> bool {
 }
 
 fn check<T: Scalar>(spec: &Spec, alpha: &[f64], depth: usize, st: &mut Stats, sink: &Sink) {
-    let kids: Vec<Dyn<T>> = spec.ch.iter().map(|c| build::<T>(c)).collect();
-    let root = S { comb: build::<T>(spec), kids };
+    let built = crate::explore::guard(|| {
+        let kids: Vec<Dyn<T>> = spec.ch.iter().map(|c| build::<T>(c)).collect();
+        S { comb: build::<T>(spec), kids }
+    });
+    let root = match built {
+        Ok(r) => r,
+        Err(m) => {
+            sink.push(Violation::new("C14", spec, "panicked", T::NAME, &[], format!("the constructor panicked: {}", m)));
+            return;
+        }
+    };
     st.configs += 1;
     // before the first update
-    {
-        let want = expected::<T>(spec, &root.kids, None);
-        if !same_mod_zero(root.comb.last(), want) {
-            sink.push(Violation::new("C14", spec, "pointwise", T::NAME, &[], format!("before any update: reports {} but the pointwise function of its children gives {}", opt_key(root.comb.last()), opt_key(want))));
+    match crate::explore::guard(|| (root.comb.last(), expected::<T>(spec, &root.kids, None))) {
+        Ok((got, want)) => {
+            if !same_mod_zero(got, want) {
+                sink.push(Violation::new("C14", spec, "pointwise", T::NAME, &[], format!("before any update: reports {} but the pointwise function of its children gives {}", opt_key(got), opt_key(want))));
+            }
+        }
+        Err(m) => {
+            sink.push(Violation::new("C14", spec, "panicked", T::NAME, &[], m));
+            return;
         }
     }
     tree::<T, S<T>>(
